@@ -7,6 +7,206 @@ use crate::ws::r2;
 
 pub struct C13;
 
+pub const FAULTS: [&str; 11] = [
+    "undefined-class",
+    "undefined-multiclass",
+    "undefined-identifier",
+    "missing-include",
+    "dropped-template-argument",
+    "surplus-template-argument",
+    "type-incompatible-value",
+    "operator-too-many-operands",
+    "operator-too-few-operands",
+    "deleted-token-root",
+    "deleted-token-header",
+];
+
+/// one text edit: (file, range to replace, replacement, site range in the new text)
+struct Edit {
+    file: usize,
+    range: (usize, usize),
+    text: String,
+    /// the diagnostic must intersect this range of the edited text (inclusive ends)
+    site: (usize, usize),
+    what: String,
+}
+
+fn wrong_typed(ty: &crate::gen::sem::Ty) -> &'static str {
+    use crate::gen::sem::Ty;
+    // a literal for which no TableGen conversion to `ty` exists
+    match ty {
+        Ty::Int | Ty::Bit | Ty::Bits(_) => "\"oops\"",
+        Ty::Str | Ty::Code => "[1, 2]",
+        Ty::Dag => "[1, 2]",
+        Ty::List(_) => "\"oops\"",
+        Ty::Class(_) => "\"oops\"",
+    }
+}
+
+fn pick_edit(p: &crate::gen::sem::Program, class: &str, pick: usize) -> Option<Edit> {
+    use crate::gen::sem::{DeclKind, Role};
+    let ident_edit = |occ: &crate::gen::sem::Occ, new: String, what: String| Edit {
+        file: occ.file,
+        range: occ.range,
+        site: (occ.range.0, occ.range.0 + new.len()),
+        text: new,
+        what,
+    };
+    let uses_of = |kinds: &[DeclKind]| -> Vec<&crate::gen::sem::Occ> {
+        p.occs.iter().filter(|o| matches!(&o.role, Role::Use(d) if kinds.contains(&p.decls[*d].kind))).collect()
+    };
+    match class {
+        "undefined-class" => {
+            let c = uses_of(&[DeclKind::Class]);
+            let o = c.get(pick % c.len().max(1))?;
+            Some(ident_edit(o, "UndefinedClass".into(), "class name replaced by an undeclared one".into()))
+        }
+        "undefined-multiclass" => {
+            let c = uses_of(&[DeclKind::Multiclass]);
+            let o = c.get(pick % c.len().max(1))?;
+            Some(ident_edit(o, "UndefinedMulticlass".into(), "multiclass name replaced by an undeclared one".into()))
+        }
+        "undefined-identifier" => {
+            let c = uses_of(&[DeclKind::Defvar, DeclKind::ForeachVar, DeclKind::BangVar, DeclKind::TemplateArg, DeclKind::Field, DeclKind::Def, DeclKind::Defset]);
+            let o = c.get(pick % c.len().max(1))?;
+            Some(ident_edit(o, "undefined_name".into(), "identifier in a value replaced by an undeclared one".into()))
+        }
+        "missing-include" => {
+            let file = pick % p.files.len();
+            let t = "include \"nowhere.td\"\n".to_string();
+            Some(Edit { file, range: (0, 0), site: (0, t.len() - 1), text: t, what: "include of a missing file added".into() })
+        }
+        "dropped-template-argument" => {
+            let c: Vec<_> = p.classrefs.iter().filter(|r| r.required >= 1 && r.args_range.is_some()).collect();
+            let r = c.get(pick % c.len().max(1))?;
+            let ar = r.args_range?;
+            Some(Edit { file: r.file, range: ar, text: String::new(), site: (r.name_range.0, ar.0), what: "argument list with a required template argument removed".into() })
+        }
+        "surplus-template-argument" => {
+            let c: Vec<_> = p.classrefs.iter().filter(|r| r.positional.len() == r.params).collect();
+            let r = c.get(pick % c.len().max(1))?;
+            match r.args_range {
+                Some(ar) => {
+                    let ins = if r.params == 0 { "0".to_string() } else { ", 0".to_string() };
+                    Some(Edit { file: r.file, range: (ar.1 - 1, ar.1 - 1), site: (r.name_range.0, ar.1 + ins.len()), text: ins, what: "one template argument too many".into() })
+                }
+                None => Some(Edit { file: r.file, range: (r.name_range.1, r.name_range.1), text: "<0>".into(), site: (r.name_range.0, r.name_range.1 + 3), what: "template argument given to a class without parameters".into() }),
+            }
+        }
+        "type-incompatible-value" => {
+            let c = &p.typed_sites;
+            let (file, range, ty, ctx) = c.get(pick % c.len().max(1))?;
+            let new = wrong_typed(ty).to_string();
+            Some(Edit { file: *file, range: *range, site: (range.0, range.0 + new.len()), text: new, what: format!("{ctx} of type {} replaced by a value of an inconvertible type", ty.render()) })
+        }
+        "operator-too-many-operands" | "operator-too-few-operands" => {
+            const FIXED: [&str; 14] = ["!sub", "!size", "!if", "!shl", "!tolower", "!eq", "!lt", "!not", "!empty", "!ne", "!tail", "!head", "!interleave", "!con"];
+            let c: Vec<_> = p.bang_sites.iter().filter(|b| FIXED.contains(&b.1.as_str())).collect();
+            let (file, op, close, _n, start) = c.get(pick % c.len().max(1))?;
+            if class == "operator-too-many-operands" {
+                Some(Edit { file: *file, range: (*close, *close), text: ", 0".into(), site: (*start, *close + 4), what: format!("one operand too many for {op}") })
+            } else {
+                // drop everything after the last top-level comma … simpler: drop the last operand by text scan
+                let text = &p.files[*file].1;
+                let mut depth = 0i32;
+                let mut cut = None;
+                let mut i = *close;
+                while i > 0 {
+                    i -= 1;
+                    match text.as_bytes()[i] {
+                        b')' | b']' | b'}' | b'>' => depth += 1,
+                        b'(' | b'[' | b'{' | b'<' => {
+                            if depth == 0 {
+                                cut = Some((i + 1, true));
+                                break;
+                            }
+                            depth -= 1;
+                        }
+                        b',' if depth == 0 => {
+                            cut = Some((i, false));
+                            break;
+                        }
+                        b'"' => {
+                            // skip the string literal backwards
+                            while i > 0 && text.as_bytes()[i - 1] != b'"' {
+                                i -= 1;
+                            }
+                            i = i.saturating_sub(1);
+                        }
+                        _ => {}
+                    }
+                }
+                let (from, _) = cut?;
+                Some(Edit { file: *file, range: (from, *close), text: String::new(), site: (*start, from + 1), what: format!("one operand too few for {op}") })
+            }
+        }
+        "deleted-token-root" | "deleted-token-header" => {
+            let file = if class == "deleted-token-root" { 0 } else { 1 + pick % p.files.len().saturating_sub(1).max(1) };
+            let text = &p.files.get(file)?.1;
+            // non-trivia tokens by the repository's own lexer
+            let (toks, _) = super::c14::impl_lex(text);
+            let toks: Vec<_> = toks.into_iter().filter(|t| !t.0.is_trivia()).collect();
+            // `}` is not locally detectable (the block just goes on), and `=` before `{` reads as a bit-range suffix
+            let cands: Vec<usize> = (0..toks.len())
+                .filter(|&i| matches!(&text[toks[i].1..toks[i].2], ";" | "=" | ":"))
+                .filter(|&i| !(&text[toks[i].1..toks[i].2] == "=" && toks.get(i + 1).map(|t| &text[t.1..t.2] == "{").unwrap_or(false)))
+                .collect();
+            let i = *cands.get(pick % cands.len().max(1))?;
+            let prev_end = if i > 0 { toks[i - 1].2 } else { 0 };
+            let removed = toks[i].2 - toks[i].1;
+            let next_end = toks.get(i + 1).map(|t| t.2 - removed).unwrap_or(text.len() - removed);
+            Some(Edit { file, range: (toks[i].1, toks[i].2), text: String::new(), site: (prev_end, next_end), what: format!("required token {:?} deleted", &text[toks[i].1..toks[i].2]) })
+        }
+        _ => None,
+    }
+}
+
+fn seeded(p: &crate::gen::sem::Program, class: &str, pick: usize) -> Verdict {
+    let Some(e) = pick_edit(p, class, pick) else { return Verdict::Skip("no-eligible-site") };
+    let mut files = p.files.clone();
+    files[e.file].1.replace_range(e.range.0..e.range.1, &e.text);
+    let ws = crate::ws::Workspace::new(&files, &files[0].0);
+    let a = ws.analysis();
+    let diags = a.diagnostics();
+    let Some(fid) = ws.fs.id_of(&crate::ws::abs(&files[e.file].0)) else { return Verdict::Skip("seeded-file-not-in-workspace") };
+    let in_file = diags.get(&fid).cloned().unwrap_or_default();
+    let hit = in_file.iter().any(|d| {
+        let (s, z) = r2(d.location.range);
+        s <= e.site.1 && z >= e.site.0
+    });
+    let show_files = files.iter().map(|(n, t)| format!("--- {n}\n{t}")).collect::<Vec<_>>().join("\n");
+    if !hit {
+        let where_ = if e.file == 0 { "root" } else { "included-file" };
+        return Verdict::Fail(Failure::new(
+            "C13.fault-not-reported",
+            format!("C13.fault-not-reported:{class}:{where_}"),
+            format!(
+                "{} in {} at {:?} (site {:?}): no diagnostic there; diagnostics of that file: {:?}\n{show_files}",
+                e.what,
+                files[e.file].0,
+                e.range,
+                e.site,
+                in_file.iter().map(|d| (r2(d.location.range), d.message.clone())).collect::<Vec<_>>()
+            ),
+        ));
+    }
+    // a fault in the root does not touch the files it includes
+    if e.file == 0 {
+        for (f, ds) in &diags {
+            if *f != fid {
+                if let Some(d) = ds.first() {
+                    return Verdict::Fail(Failure::new(
+                        "C13.diagnostic-in-untouched-file",
+                        format!("C13.diagnostic-in-untouched-file:{class}"),
+                        format!("{} in the root, but {:?} reports {:?} {}\n{show_files}", e.what, ws.fs.path_of(*f), r2(d.location.range), d.message),
+                    ));
+                }
+            }
+        }
+    }
+    Verdict::Pass { nontrivial: true, labels: vec![if e.file == 0 { "fault-in-root" } else { "fault-in-included-file" }] }
+}
+
 fn message_template(m: &str) -> String {
     // message with identifiers/numbers collapsed: the root-cause key of a false positive
     let mut out = String::new();
@@ -31,19 +231,34 @@ impl Property for C13 {
         "well-formed SEM programs (see C05; no probes) must produce no diagnostic in any file; then one fault is seeded per case (see the fault classes in the family names) and >=1 diagnostic must intersect the seeded site in the seeded file, and no diagnostic may appear in files the fault does not touch. distinct = (seed, n, fault); non-trivial = program with >=3 declaration kinds and >=1 bang operator (clean), or any seeded case".into()
     }
     fn families(&self, ctx: &Ctx) -> Vec<Family> {
-        vec![Family::new("well-formed", ctx.tier.pick(100, 2000), |_c, rng, emit| {
+        let mut v = vec![Family::new("well-formed", ctx.tier.pick(100, 2000), |_c, rng, emit| {
             for _ in 0..50 {
                 if !emit(sem_case(rng, false)) {
                     return;
                 }
             }
-        })]
+        })];
+        for class in FAULTS {
+            v.push(Family::new(&format!("fault:{class}"), ctx.tier.pick(12, 200), move |_c, rng, emit| {
+                for _ in 0..50 {
+                    let mut c = sem_case(rng, false);
+                    c["fault"] = json!({"class": class, "pick": rng.below(1000)});
+                    if !emit(c) {
+                        return;
+                    }
+                }
+            }));
+        }
+        v
     }
     fn run_case(&self, _ctx: &Ctx, case: &Case) -> Verdict {
         if case["kind"] == "manual" {
             return super::semcase::manual(case, "C13");
         }
         let Some(p) = program_of(case) else { return Verdict::Skip("malformed-case") };
+        if let Some(f) = case.get("fault") {
+            return seeded(&p, f["class"].as_str().unwrap_or(""), f["pick"].as_u64().unwrap_or(0) as usize);
+        }
         let ws = workspace_of(&p);
         let a = ws.analysis();
         let diags = a.diagnostics();
